@@ -558,8 +558,6 @@ class Acl(AceGroup):
                 ace_o.ungroup_ports()
             _items.append(ace_o)
         self.items = _items
-        if self._group_by and not all(isinstance(o, AceGroup) for o in self._items):
-            self.group(group_by=self._group_by)
 
     def ungroup(self) -> None:
         """Ungroup AceGroup to a flat list of Ace items.
